@@ -59,9 +59,23 @@ ChainsKnownOK(c) == HasChain(c) => \A i \in 1..Len(c.chain) :
 \* are still the caller's
 AfterHistoryOK(c) == c.after = c.fresh /\ c.flags_changed = 0 /\ c.after_ret = c.fresh_ret
 
+\* the end of a scan whose CONTENT is not modelled (a live process): the rule of Scan.tla for the replies of the callback, on
+\* the recorded messages alone.  c.cbs = <<<<message, reply>>, ...>> in the order of delivery, c.ret = what the scan call returned.
+\* A reply that ends the scan (error to a rule or module message, abort to a rule message) is the last message delivered, and
+\* the call returns ERROR_CALLBACK_ERROR (28) after an error reply, ERROR_SUCCESS after an abort - whatever the entry point.
+ProcEndOK(c) ==
+  LET n == Len(c.cbs)
+      IsErr(k) == c.cbs[k][2] = "error" /\ c.cbs[k][1] \in {"match", "nomatch", "import", "imported"}
+      IsAbort(k) == c.cbs[k][2] = "abort" /\ c.cbs[k][1] \in {"match", "nomatch"}
+  IN /\ \A k \in 1..n : (IsErr(k) \/ IsAbort(k)) => k = n
+     /\ (n > 0 /\ IsErr(n)) => c.ret = 28
+     /\ (n > 0 /\ IsAbort(n)) => c.ret = 0
+     /\ (c.ret = 0 /\ ~(n > 0 /\ IsAbort(n))) => (n > 0 /\ c.cbs[n][1] = "finished")
+
 CaseOK(c) ==
   CASE c.kind = "text" -> ObsOK(c.pat, c.mods, c.buf, c.obs)
     [] c.kind = "afterhistory" -> AfterHistoryOK(c)
+    [] c.kind = "procend" -> ProcEndOK(c)
     [] c.kind = "re"   -> StringObsOK(c) /\ ChainsStrictOK(c)
     [] c.kind = "matches" -> c.obs = MatchesOp(c.ast, c.buf, [nocase |-> c.nocase, dotall |-> c.dotall, wide |-> FALSE])
     [] c.kind = "rescanerr" -> FALSE      \* a scan of a small buffer with a small expression must end with a verdict, not an error
